@@ -1280,7 +1280,13 @@ class DiameterMessage:
                                        "DiameterMessage subclass object to be "\
                                        "converted into DiameterMessage object")
         
-        return cls(header=msg.header,
+        #: The new message gets a header of its own: appending the AVPs to the
+        #: source's header object would count every AVP twice in the Message
+        #: Length of both messages.
+        header = msg.header.copy()
+        header.length = DIAMETER_HEADER_LENGTH
+
+        return cls(header=header,
                    avps=msg.avps)
 
 
